@@ -162,6 +162,13 @@ type c03Msg struct {
 	body    string // the true body
 	code    int
 	head    bool
+	pre     int // bytes of informational (1xx) responses in front of the final one
+	n1xx    int
+}
+
+// headEnd is the offset of the first body byte of the final response.
+func (m c03Msg) headEnd() int {
+	return m.pre + strings.Index(m.stream[m.pre:], "\r\n\r\n") + 4
 }
 
 func c03GenMsg(r *rand.Rand, maxBody int) c03Msg {
@@ -246,6 +253,17 @@ func c03GenMsg(r *rand.Rand, maxBody int) c03Msg {
 	r.Shuffle(len(hdr), func(i, j int) { hdr[i], hdr[j] = hdr[j], hdr[i] })
 	m.body = body
 	m.stream = proto + " " + strconv.Itoa(m.code) + " Status\r\n" + strings.Join(hdr, "\r\n") + "\r\n\r\n" + wire.String()
+	// informational responses in front (readResponse skips up to 5 non-101 1xx)
+	if r.Intn(7) == 0 {
+		n1 := verifh.Pick(r, []int{1, 2, 5, 5, 6})
+		pre := ""
+		for i := 0; i < n1; i++ {
+			pre += verifh.Pick(r, []string{"HTTP/1.1 100 Continue\r\n\r\n", "HTTP/1.1 103 Early Hints\r\nLink: </s.css>; rel=preload\r\n\r\n", "HTTP/1.1 199 Misc\r\nContent-Length: 5\r\n\r\n"})
+		}
+		m.stream = pre + m.stream
+		m.pre = len(pre)
+		m.n1xx = n1
+	}
 	return m
 }
 
@@ -374,6 +392,7 @@ func c03RunClient(dial func(ctx context.Context, network, addr string) (net.Conn
 	o.first, o.firstErr = guarded()
 	o.dialsAfter = dials()
 	head = false
+	early = false
 	second, serr := guarded()
 	o.dials = dials()
 	want := "ok code=200 body=" + verifh.Hex(c03Second)
@@ -432,14 +451,14 @@ func TestVerif_C03_h1cut(t *testing.T) {
 		vs = append(vs, variant{k: len(m.stream), mode: "early"})
 		// ... and the same while the peer is still in the middle of the body: the rest of the
 		// body arrives only after the next request was written to that connection (if any was)
-		if he := strings.Index(m.stream, "\r\n\r\n") + 4; (m.framing == "len" || m.framing == "chunked") && len(m.stream)-he >= 2 {
+		if he := m.headEnd(); (m.framing == "len" || m.framing == "chunked") && len(m.stream)-he >= 2 {
 			vs = append(vs, variant{k: he + r.Intn(len(m.stream)-he-1), mode: "early", tag: "early-partial"})
 		}
 		// framing errors in the middle of a chunked body on a connection that stays open: the
 		// exchange fails and the connection (whose stream position is now undefined) must not
 		// serve the next request
 		if m.framing == "chunked" && len(m.body) > 0 {
-			he := strings.Index(m.stream, "\r\n\r\n") + 4
+			he := m.headEnd()
 			bad := m.stream[:he] + "z" + m.stream[he+1:]
 			// (the peer stops right after the offending line, so nothing unsolicited is pending)
 			vs = append(vs, variant{k: he + strings.Index(bad[he:], "\n") + 1, mode: "hold", stream: bad, tag: "corrupt-size"})
@@ -480,13 +499,13 @@ func TestVerif_C03_h1cut(t *testing.T) {
 			// property oracle, independent of the model
 			ok := true
 			why := ""
-			complete := v.k == len(m.stream) && v.stream == ""
+			complete := v.k == len(m.stream) && v.stream == "" && m.n1xx <= 5
 			wantOK := "ok code=" + strconv.Itoa(m.code) + " body=" + verifh.Hex(m.body)
 			if v.tag != "" {
 				cnt(v.tag)
 			}
 			if v.mode == "early" {
-				if obs.first != "ok-early code="+strconv.Itoa(m.code) {
+				if m.n1xx <= 5 && obs.first != "ok-early code="+strconv.Itoa(m.code) {
 					ok, why = false, "response head not delivered: "+obs.firstErr
 				}
 				if m.framing != "none" && obs.dials != 2 {
@@ -496,7 +515,7 @@ func TestVerif_C03_h1cut(t *testing.T) {
 				switch {
 				case m.framing == "close":
 					// a cut is indistinguishable from the end: the body must be the bytes received
-					if he := strings.Index(m.stream, "\r\n\r\n") + 4; v.k >= he && obs.first != "ok code="+strconv.Itoa(m.code)+" body="+verifh.Hex(m.stream[he:v.k]) {
+					if he := m.headEnd(); v.k >= he && obs.first != "ok code="+strconv.Itoa(m.code)+" body="+verifh.Hex(m.stream[he:v.k]) {
 						ok, why = false, "close-delimited body differs from the bytes received"
 					}
 				case obs.first != wantOK:
@@ -701,9 +720,9 @@ func TestVerif_C03_h1tcp(t *testing.T) {
 			stream := r.Intn(3) == 0
 			obs := c03RunClient(dial, p.count, m.head, stream, verifh.Pick(r, []int{1, 64, 4096}), false, func() { p.next(nil) })
 			ok, why := true, ""
-			complete := k == len(m.stream)
+			complete := k == len(m.stream) && m.n1xx <= 5
 			if strings.HasPrefix(obs.first, "ok") {
-				he := strings.Index(m.stream, "\r\n\r\n") + 4
+				he := m.headEnd()
 				switch {
 				case m.framing == "close":
 					if k < he || obs.first != "ok code="+strconv.Itoa(m.code)+" body="+verifh.Hex(m.stream[he:k]) {
